@@ -370,15 +370,39 @@ impl TirGen {
             3 => Expression::String(self.string(rng)),
             4 => Expression::List((0..rng.usize(3)).map(|_| Expression::Number(self.int(rng))).collect()),
             5 => Expression::Bool(rng.bool()),
-            6 if rng.chance(1, 3) => {
+            6 | 7 if rng.chance(1, 2) => {
                 // one canonical class written in two different spellings, with amounts whose sum leaves i128:
                 // whatever guards the merge has to judge classes as the conversion does, not as they are spelled
                 let p = rng.bytes(28);
                 let nm = rng.bytes(3);
-                let spellings: Vec<(Expression, Expression)> = if rng.bool() {
-                    vec![(Expression::None, Expression::None), (Expression::Bytes(vec![]), Expression::Bytes(vec![])), (Expression::None, Expression::Bytes(vec![])), (Expression::Hash(vec![]), Expression::None), (Expression::String(String::new()), Expression::String(String::new()))]
-                } else {
-                    vec![(Expression::Bytes(p.clone()), Expression::Bytes(nm.clone())), (Expression::Hash(p.clone()), Expression::Bytes(nm.clone())), (Expression::Bytes(p.clone()), Expression::String(String::from_utf8_lossy(&nm).to_string())), (Expression::Address(p.clone()), Expression::Hash(nm.clone()))]
+                // incl. ill-typed parts, which the conversion reads as absent (a policy given as String / Address /
+                // Number, a name given as Hash / Address / Number)
+                let text = String::from_utf8_lossy(&nm).to_string();
+                let spellings: Vec<(Expression, Expression)> = match rng.below(3) {
+                    0 => vec![
+                        (Expression::None, Expression::None),
+                        (Expression::Bytes(vec![]), Expression::Bytes(vec![])),
+                        (Expression::None, Expression::Bytes(vec![])),
+                        (Expression::Hash(vec![]), Expression::None),
+                        (Expression::String(String::new()), Expression::String(String::new())),
+                        (Expression::String("policy".into()), Expression::None),
+                        (Expression::Address(p.clone()), Expression::Hash(nm.clone())),
+                        (Expression::None, Expression::Hash(nm.clone())),
+                        (Expression::Number(1), Expression::Number(2)),
+                        (Expression::Bool(true), Expression::Address(nm.clone())),
+                    ],
+                    1 => vec![
+                        (Expression::None, Expression::Bytes(nm.clone())),
+                        (Expression::Bytes(vec![]), Expression::String(text.clone())),
+                        (Expression::String("policy".into()), Expression::Bytes(nm.clone())),
+                        (Expression::Address(p.clone()), Expression::Bytes(nm.clone())),
+                        (Expression::Hash(vec![]), Expression::Bytes(nm.clone())),
+                    ],
+                    _ => vec![
+                        (Expression::Bytes(p.clone()), Expression::Bytes(nm.clone())),
+                        (Expression::Hash(p.clone()), Expression::Bytes(nm.clone())),
+                        (Expression::Bytes(p.clone()), Expression::String(text.clone())),
+                    ],
                 };
                 let (x, y) = *rng.pick(&[(i128::MAX, 1i128), (i128::MAX, i128::MAX), (i128::MIN, -1), (i128::MIN, i128::MIN), (i128::MAX - 1, 2), (1 << 126, 1 << 126), (5, 7)]);
                 let a = rng.pick(&spellings).clone();
